@@ -104,6 +104,11 @@ type (
 		Inner *CContainer `serix:",optional"`
 	}
 
+	// must-occur rule sets without an at-most-one-of-each-type mode (repeated and missing types)
+	CShapesMust2 []CShape
+	CShapesMust3 []CShape
+	CWidesMust   []CWide
+
 	CWide  interface{}
 	CWideA struct {
 		V uint64 `serix:""`
@@ -247,6 +252,17 @@ func baseAPI() *serix.API {
 	return api
 }
 
+// mustPrep: slices of interface elements with two / three must-occur types and no type-uniqueness mode.
+func mustPrep(api *serix.API) {
+	must(api.RegisterTypeSettings(CShapesMust2{}, lpTS(serix.LengthPrefixTypeAsByte).WithArrayRules(&serix.ArrayRules{
+		MustOccur: serializer.TypePrefixes{100: struct{}{}, 101: struct{}{}}})))
+	must(api.RegisterTypeSettings(CShapesMust3{}, lpTS(serix.LengthPrefixTypeAsUint16).WithArrayRules(&serix.ArrayRules{
+		Min: 2, Max: 6, MustOccur: serializer.TypePrefixes{100: struct{}{}, 102: struct{}{}, 103: struct{}{}},
+		ValidationMode: serializer.ArrayValidationModeNoDuplicates})))
+	must(api.RegisterTypeSettings(CWidesMust{}, lpTS(serix.LengthPrefixTypeAsByte).WithArrayRules(&serix.ArrayRules{
+		MustOccur: serializer.TypePrefixes{70000: struct{}{}, 7: struct{}{}}})))
+}
+
 // narrowPrep: sequence types of named one-byte elements registered with object codes and prefixes.
 func narrowPrep(api *serix.API) {
 	must(api.RegisterTypeSettings(CFlags4{}, lpTS(serix.LengthPrefixTypeAsUint16).WithObjectType(uint8(44))))
@@ -309,6 +325,17 @@ var catalogue = []catEntry{
 	{name: "narrow", top: CNarrow{}, prep: narrowPrep},
 	{name: "top-flags4", top: CFlags4{}, prep: narrowPrep},
 	{name: "top-flags-slice", top: CFlagsS{}, prep: narrowPrep},
+	// element counts at the capacity of every prefix width (the value generator picks 254..257 / 65535..65537 elements)
+	{name: "cap-flags-u8", top: []CFlag{}, ts: tsp(lpTS(serix.LengthPrefixTypeAsByte))},
+	{name: "cap-flags-u16", top: []CFlag{}, ts: tsp(lpTS(serix.LengthPrefixTypeAsUint16))},
+	{name: "cap-flags-u32", top: []CFlag{}, ts: tsp(lpTS(serix.LengthPrefixTypeAsUint32))},
+	{name: "cap-bools-u8", top: []bool{}, ts: tsp(lpTS(serix.LengthPrefixTypeAsByte))},
+	{name: "cap-int8s-u16", top: []int8{}, ts: tsp(lpTS(serix.LengthPrefixTypeAsUint16))},
+	{name: "cap-map-u8", top: map[uint16]bool{}, ts: tsp(lpTS(serix.LengthPrefixTypeAsByte))},
+	{name: "cap-map-u16", top: map[uint32]CFlag{}, ts: tsp(lpTS(serix.LengthPrefixTypeAsUint16))},
+	{name: "must2", top: CShapesMust2{}, prep: mustPrep},
+	{name: "must3", top: CShapesMust3{}, prep: mustPrep},
+	{name: "must-wide", top: CWidesMust{}, prep: mustPrep},
 	{name: "top-flag-arr", top: [4]CFlag{}, ts: tsp(lpTS(serix.LengthPrefixTypeAsByte))},
 	{name: "top-flag-arr16", top: [3]CFlag{}, ts: tsp(lpTS(serix.LengthPrefixTypeAsUint16))},
 	{name: "top-flag-arr32", top: [2]CSmall{}, ts: tsp(lpTS(serix.LengthPrefixTypeAsUint32))},
